@@ -7,7 +7,7 @@ META = {
     "level": "model_checking",
     "technique": "TLA+ decision table (Signer.tla) enumerated by TLC and realised row by row with real keys on core/types; sender-cache behaviours replayed; driver built with cgo and without, logs zipped into one trace validated by SignerTrace.tla",
     "text": "Signer.tla states, from the Yellow Paper, EIP-2, EIP-155, EIP-2718 and the typed-transaction EIPs, which outcome (recovers the signer / recovers another address / unsupported type / wrong chain id / invalid signature) sender recovery must have for every signer kind (Frontier..Prague, constructors and MakeSigner at every fork), chain id (0, 1, 1337, > 64 bit), transaction type and signature class (v encoding, parity, r and s range classes incl. the n/2 boundary, honest/malleated/foreign preimage). TLC checks the table laws (sign-then-recover, cross-signer attribution, high-s only pre-Homestead, range strictness, forward compatibility) and prints every row; the driver produces a real signature for each row, edits it into the class and compares types.Sender/Signer.Sender; signing hashes are recomputed from the EIP field lists; repeated Sender calls on one object must follow the cache machine. The same driver is built with CGO_ENABLED=1 and 0; both logs (table rows, digests over all rows, and a seeded secp256k1 corpus of valid, edited and random inputs) must be identical and conform.",
-    "note": "The curve arithmetic is covered only differentially (two backends, sign/recover inverse). Recognised deviations of the code from the property (exact fingerprints, spec/codec/NOTES.md): C03-F1 EIP155Signer with chain id 0 and C03-F2 signatures over digests >= n differ between backends are reported as KNOWN-FINDING while open in known_findings.json and as violations otherwise; C03-F3 pure-Go Ecrecover accepts recovery ids 4..7 is being repaired in /repo. JSON-level signature sanity checks (sanityCheckSignature) are not covered.",
+    "note": "The curve arithmetic is covered only differentially (two backends, sign/recover inverse). Recognised deviations of the code from the property (exact fingerprints, spec/codec/NOTES.md): C03-F1 EIP155Signer with chain id 0 and C03-F2 signatures over digests >= n differ between backends are reported as KNOWN-FINDING while open in known_findings.json and as violations otherwise (C03-F3, pure-Go Ecrecover accepting recovery ids 4..7, was found by this check and is fixed in /repo). JSON-level signature sanity checks (sanityCheckSignature) are not covered.",
     "design_ref": "3.1 C03",
 }
 
@@ -31,8 +31,6 @@ def zip_logs(ctx, a_path, b_path, out_path, found):
             f.write(json.dumps(ev) + "\n")
             if x.get("op") == "csign" and x.get("class") == "digestGeN" and x.get("sig") != y.get("sig"):
                 hit("C03-F2", ev)
-            if x.get("op") == "recover" and x.get("class") == "vBad" and x.get("ok") is False and y.get("ok") is True:
-                hit("C03-F3", ev)
             if x.get("op") == "sign" and x.get("recovered") == "Other" and x.get("sg") == {"kind": 3, "chain": 0}:
                 hit("C03-F1", ev)
 
@@ -74,24 +72,16 @@ def run(ctx):
     found = {}
     for i in (0, 1):
         zip_logs(ctx, logs["cgo"][i], logs["nocgo"][i], tp, found)
-    # Recognised deviations.  C03-F1/F2 are admitted only while known_findings.json lists them as open
-    # (KNOWN-FINDING line); C03-F3 is being repaired in /repo - until that lands it is admitted unless the
-    # run is strict (VERIF_STRICT=C03-F3, used to validate the repair).  Everything else is a violation.
-    strict = set(x for x in os.environ.get("VERIF_STRICT", "").split(",") if x)
+    # Recognised deviations C03-F1/F2 are admitted only while known_findings.json lists them as open
+    # (KNOWN-FINDING line); otherwise - and for anything else - the run reports a violation.
     admit = {}
-    for fid in ("C03-F1", "C03-F2", "C03-F3"):
+    for fid in ("C03-F1", "C03-F2"):
         n = found.get(fid, [0])[0]
-        if fid == "C03-F3":
-            admit[fid] = n > 0 and fid not in strict
-            if admit[fid]:
-                line = "PENDING-FIX property=C03 %s: %d event(s): pure-Go Ecrecover accepts recovery ids 4..7 (repair prepared: spec/codec/mutations/C03-F3-candidate-fix.diff)" % (fid, n)
-                print(line); ctx.notes.append(line)
-        else:
-            admit[fid] = n > 0 and ctx.known_finding(fid)
+        admit[fid] = n > 0 and ctx.known_finding(fid)
         if n > 0 and not admit[fid]:
             ctx.violation("%s: %d event(s) show the deviation and it is not an open known finding" % (fid, n),
                           {"kind": "finding", "id": fid, "count": n, "sample": found[fid][1], "seed": ctx.seed, "tier": ctx.tier})
-    env = {"ADMIT_F1": "1" if admit["C03-F1"] else "0", "ADMIT_F2": "1" if admit["C03-F2"] else "0", "ADMIT_F3": "1" if admit["C03-F3"] else "0"}
+    env = {"ADMIT_F1": "1" if admit["C03-F1"] else "0", "ADMIT_F2": "1" if admit["C03-F2"] else "0"}
     ok, consumed, total, r = ctx.validate("codec/SignerTrace", tp, ntraces=2, timeout=3600, env=env)
     if not ok:
         ctx.reject_trace("codec/SignerTrace", tp, consumed, r)
@@ -100,4 +90,4 @@ def run(ctx):
         rule="MC: table laws on every (signer, tx class) row, cache machine to depth 3; R: every row realised with a real signature on both builds; V: zipped cgo/nocgo logs, every event equal and admitted by the specification",
         assumptions=["curve arithmetic itself only covered differentially (cgo vs pure Go) and by sign/recover inverse",
                      "probability-2^-128 events (recovery failure for an honest r with edited s) are ignored",
-                     "recognised deviations C03-F1/F2 (known findings) and C03-F3 (repair pending) are admitted only by their exact fingerprint"])
+                     "recognised deviations C03-F1/F2 (open known findings) are admitted only by their exact fingerprint"])
